@@ -14,7 +14,9 @@
   `post` = the model's answers to them run in sequence from the result state, `model_eq` = they coincide (what
   `combine_history_independent` proves), `post_ok` = `opsOk` of the post queries (its hypothesis);
   `post2`/`fresh2`: the same for a second query list run from the (same) result state.
-  An operand may itself be the result of an operator: `{"combine":{"oper":..,"a":{plain},"b":{plain}},"ops":[..]}`;
+  Optional `"a_after":[..]`, `"b_after":[..]`: operations executed on an operand after the operator (reply fields
+  `after_fresh`, `after_eq`, `after_ok` of the operand); `post` may contain mutations of the result.
+  An operand may itself be the result of an operator (to any depth): `{"combine":{"oper":..,"a":{..},"b":{..}},"ops":[..]}`;
   operand histories may contain `add`/`del`/`remove` (C09 operations).
   `caches` (diagnostic mode): after the warm-up the operand's five caches are replaced by the given ones (the
   private caches of the real operand), so that the operator is applied to exactly the state the implementation
@@ -41,38 +43,38 @@ structure Operand where
   st : St Nat
   outs : List Out
 
-/-- `POSet(elems, leq, use_cache[, children_dict])` followed by the operand's own history -/
-def mkPlain (leq : Nat → Nat → Bool) (ord : List Nat → List Nat) (j : Json) :
-    Except String (Except PyErr (St Nat)) := do
-  let elems ← getNatList j "elems"
-  let useCache ← getBool j "use_cache"
-  let ops ← (← arr (← j.getObjVal? "ops")).mapM C09.parseOp
-  let s0 ← match j.getObjVal? "children_dict" with
-    | .ok .null | .error _ => pure (Except.ok (init elems useCache) : Except PyErr (St Nat))
-    | .ok cdj => do
-      let cd ← C09.parseCD cdj
-      if useCache then pure (initCD 200000 elems cd) else pure (Except.ok (init elems false))
-  pure (s0.map fun s0 => (run leq ord s0 ops).1)
-
-/-- build an operand and run its warm-up history (which may contain `add`/`del`/`remove`).  An operand is a plain
-    poset, or (`"combine":{"oper":..,"a":{..},"b":{..}}`) itself the result of an operator on two plain posets -/
-def mkOperand (leq : Nat → Nat → Bool) (ord : List Nat → List Nat) (j : Json) :
-    Except String (Except PyErr Operand) := do
+/-- the state of an operand description: `POSet(elems, leq, use_cache[, children_dict])` or - recursively -
+    (`"combine":{"oper":..,"a":{..},"b":{..}}`) the result of an operator on two operand descriptions, followed by
+    the description's own history `ops` (queries, `fill_up_*`, `add`/`del`/`remove`) -/
+partial def mkState (leq : Nat → Nat → Bool) (ord : List Nat → List Nat) (j : Json) :
+    Except String (Except PyErr (St Nat × List Out)) := do
   let ops ← (← arr (← j.getObjVal? "ops")).mapM C09.parseOp
   let s0 ← match j.getObjVal? "combine" with
-    | .ok .null | .error _ => mkPlain leq ord (j.setObjVal! "ops" (Json.arr #[]))
+    | .ok .null | .error _ => do
+      let elems ← getNatList j "elems"
+      let useCache ← getBool j "use_cache"
+      match j.getObjVal? "children_dict" with
+      | .ok .null | .error _ => pure (Except.ok (init elems useCache) : Except PyErr (St Nat))
+      | .ok cdj => do
+        let cd ← C09.parseCD cdj
+        if useCache then pure (initCD 200000 elems cd) else pure (Except.ok (init elems false))
     | .ok cj => do
       let oper ← parseOper (← getStr cj "oper")
-      let xa ← mkPlain leq ord (← cj.getObjVal? "a")
-      let xb ← mkPlain leq ord (← cj.getObjVal? "b")
+      let xa ← mkState leq ord (← cj.getObjVal? "a")
+      let xb ← mkState leq ord (← cj.getObjVal? "b")
       match xa, xb with
-      | .ok sa, .ok sb => pure (combine leq oper true sa sb)
+      | .ok sa, .ok sb => pure (combine leq oper true sa.1 sb.1)
       | .error e, _ => pure (.error e)
       | _, .error e => pure (.error e)
+  pure (s0.map fun s0 => run leq ord s0 ops)
+
+/-- build an operand and run its warm-up history -/
+def mkOperand (leq : Nat → Nat → Bool) (ord : List Nat → List Nat) (j : Json) :
+    Except String (Except PyErr Operand) := do
+  let s0 ← mkState leq ord j
   match s0 with
   | .error e => pure (.error e)
-  | .ok s0 =>
-    let r := run leq ord s0 ops
+  | .ok r =>
     -- diagnostic mode: continue from the cache state the *implementation's* operand is in ("caches")
     match j.getObjVal? "caches" with
     | .ok .null | .error _ => pure (.ok ⟨r.1, r.2⟩)
@@ -90,10 +92,21 @@ def mkOperand (leq : Nat → Nat → Bool) (ord : List Nat → List Nat) (j : Js
                                      chilC := (← cache "chil"), parC := (← cache "par") }
       pure (.ok ⟨st, r.2⟩)
 
-def jOperand (leq : Nat → Nat → Bool) (wantState : Bool) : Except PyErr Operand → Json
+/-- `after`: operations executed on the operand AFTER the operator was applied (the model's operators are pure,
+    so they run from the operand's state as it was): `after_fresh` = the `Fresh` answers over the operand's
+    (evolving) elements, `after_eq` = the model answers the same, `after_ok` = `opsOk` -/
+def jOperand (leq : Nat → Nat → Bool) (ord : List Nat → List Nat) (wantState : Bool) (after : List (Op Nat)) :
+    Except PyErr Operand → Json
   | .error e => Json.mkObj [("init_err", Json.str e.name)]
-  | .ok o => Json.mkObj ([("outs", Json.arr (o.outs.map C09.jOut).toArray),
-      ("inv", Json.bool (Fresh.invCheck leq o.st))] ++ (if wantState then [("state", C09.jState o.st)] else []))
+  | .ok o =>
+    let aft := if after.isEmpty then [] else
+      let mo := (run leq ord o.st after).2
+      let fo := Fresh.runFresh leq o.st.elems after
+      [("after_fresh", Json.arr (fo.map C09.jOut).toArray), ("after_eq", Json.bool (mo == fo)),
+       ("after_ok", Json.bool (Fresh.opsOk o.st.elems o.st.useCache after))]
+    Json.mkObj ([("outs", Json.arr (o.outs.map C09.jOut).toArray),
+      ("inv", Json.bool (Fresh.invCheck leq o.st))] ++ aft
+      ++ (if wantState then [("state", C09.jState o.st)] else []))
 
 def runH : Handler := fun j => do
   let leq ← C09.leqOf (← getStr j "order")
@@ -107,6 +120,11 @@ def runH : Handler := fun j => do
     | .ok .null | .error _ => pure []
     | .ok p => (← arr p).mapM C09.parseOp
   let wantState := (getBool j "state").toOption.getD false
+  let optOps := fun (k : String) => match j.getObjVal? k with
+    | .ok .null | .error _ => (pure [] : Except String (List (Op Nat)))
+    | .ok p => do (← arr p).mapM C09.parseOp
+  let aAfter ← optOps "a_after"
+  let bAfter ← optOps "b_after"
   let res : Json :=
     match oa, ob with
     | .ok a, .ok b =>
@@ -126,7 +144,7 @@ def runH : Handler := fun j => do
               [("post", Json.arr (mo.map C09.jOut).toArray), ("post2", Json.arr (mo2.map C09.jOut).toArray)])
           ++ (if wantState then [("state", C09.jState r)] else []))
     | _, _ => Json.mkObj [("skipped", Json.str "operand construction failed")]
-  pure (Json.mkObj [("a", jOperand leq wantState oa), ("b", jOperand leq wantState ob), ("res", res)])
+  pure (Json.mkObj [("a", jOperand leq ord wantState aAfter oa), ("b", jOperand leq ord wantState bAfter ob), ("res", res)])
 
 def handlers : List (String × Handler) := [("C10.run", runH)]
 
